@@ -244,7 +244,7 @@ def run_check(prop, tier, seed, runs=None, nworkers=None, wall=None, extra_env=N
                         unmatched.append(r)
             for fid in sorted(known_hit):
                 fd = next(f for f in findings if f["id"] == fid)
-                print(f"KNOWN-FINDING: property={prop} {fid}: {fd['what']} (matched {known_hit[fid]} violating runs)")
+                print(f"KNOWN-FINDING: property={prop} {fid}: {fd.get('short') or fd['what']} (matched {known_hit[fid]} violating runs)")
             # 2. unmatched violations: shrink (bounded number per class), verify the minimised replay in a
             #    fresh interpreter, write replay files.  Runs beyond the shrink cap are reported unshrunk.
             cap = 4 if tier == "quick" else 8
